@@ -173,6 +173,12 @@ func checkC17(r *evid.Run) {
 	}
 	concs := tok.Concs(r.Seed, 2, allChunkIDs)[1:] // custom branch strings
 	concs = append(concs, tok.MakeConc(int(r.Seed)%5, 4, true, allChunkIDs, nil))
+	// one concretisation per branch-string set (empty connectors, empty everything, unequal lengths, ...): every state
+	// is also run under one of them, in turn
+	var perSet []*tok.Conc
+	for b := 0; b < tok.NumBranchSets(); b++ {
+		perSet = append(perSet, tok.MakeConc(int(r.Seed+int64(b))%5, b, b%2 == 0, allChunkIDs, nil))
+	}
 	for _, m := range []modelRun{
 		{Module: "MC_C01", Cfg: "MC_C01_" + tier + ".cfg", Timeout: 20 * time.Minute},
 		{Module: "MC_C02", Cfg: "MC_C02_" + tier + ".cfg", Timeout: 25 * time.Minute},
@@ -184,7 +190,7 @@ func checkC17(r *evid.Run) {
 			if d.N%1999 == 0 {
 				r.Sample(map[string]any{"doc": docString(d.Doc), "verdict": d.Verdict})
 			}
-			checkWasmState(r, pool, d, concs)
+			checkWasmState(r, pool, d, append(append([]*tok.Conc{}, concs...), perSet[d.N%len(perSet)]))
 		})
 	}
 	c17Random(r, pool)
